@@ -19,3 +19,4 @@ def run(ctx):
     ctx.children(b, shards, run='TestC08$', env={'VERIF_C08_HIST': nh}, timeout=1200)
     # pre-mock values that only the variable refers to, across collections while the mock is in place
     ctx.children(b, 1, run='TestC08GC$', timeout=300, env={'VERIF_C08_GCROUNDS': '12' if not ctx.thorough else '200'}, what='TestC08GC')
+    ctx.children(b, 1, run='TestC08ShortPaths$', timeout=300, what='TestC08ShortPaths')
